@@ -55,6 +55,9 @@ pub enum Op {
     },
     SetThreshold(u8),
     Upgrade,
+    /// A block on the best tip whose coinbase pays `n` outputs to pool script `script`: gives one
+    /// address more UTXOs than the real page limit of 1000.
+    BigFund { script: u8, n: u16, diff: u8 },
 }
 
 #[derive(Clone, Debug, Serialize, Deserialize)]
@@ -167,13 +170,16 @@ pub fn extend_strategy(max_txs: usize) -> impl Strategy<Value = Op> {
         })
 }
 
-pub fn op_strategy(max_txs: usize, with_upgrade: bool, with_threshold: bool) -> BoxedStrategy<Op> {
-    let mut v: Vec<(u32, BoxedStrategy<Op>)> = vec![(40, extend_strategy(max_txs).boxed())];
+pub fn op_strategy(max_txs: usize, with_upgrade: bool, with_threshold: bool, with_big: bool) -> BoxedStrategy<Op> {
+    let mut v: Vec<(u32, BoxedStrategy<Op>)> = vec![(160, extend_strategy(max_txs).boxed())];
     if with_threshold {
-        v.push((2, (1u8..=6).prop_map(Op::SetThreshold).boxed()));
+        v.push((8, (1u8..=6).prop_map(Op::SetThreshold).boxed()));
     }
     if with_upgrade {
-        v.push((2, Just(Op::Upgrade).boxed()));
+        v.push((8, Just(Op::Upgrade).boxed()));
+    }
+    if with_big {
+        v.push((1, (0u8..8, 1001u16..2300, any::<u8>()).prop_map(|(script, n, diff)| Op::BigFund { script, n, diff }).boxed()));
     }
     proptest::strategy::Union::new_weighted(v).boxed()
 }
@@ -210,9 +216,21 @@ pub fn history_strategy(
     with_upgrade: bool,
     with_threshold: bool,
 ) -> impl Strategy<Value = History> {
+    history_strategy_big(max_ops, max_txs, with_upgrade, with_threshold, false)
+}
+
+/// `with_big`: occasionally include a block that gives one address more UTXOs than the real
+/// page limit of 1000.
+pub fn history_strategy_big(
+    max_ops: usize,
+    max_txs: usize,
+    with_upgrade: bool,
+    with_threshold: bool,
+    with_big: bool,
+) -> impl Strategy<Value = History> {
     (
         cfg_strategy(),
-        prop::collection::vec(op_strategy(max_txs, with_upgrade, with_threshold), 1..=max_ops),
+        prop::collection::vec(op_strategy(max_txs, with_upgrade, with_threshold, with_big), 1..=max_ops),
     )
         .prop_map(|(cfg, ops)| History { cfg, ops })
 }
@@ -629,6 +647,25 @@ impl World {
                 info.reorg = !self.model.is_ancestor_or_self(info.pre_best_tip, new_best)
                     && self.model.live.contains(&info.pre_best_tip);
             }
+            Op::BigFund { script, n, diff } => {
+                let p = self.model.best_tip();
+                let height = self.model.blocks[p].height + 1;
+                self.coinbase_nonce += 1;
+                let sc = self.script_for(*script);
+                let outs = (0..*n).map(|k| chain::txout(1 + (k as u64 % 7), sc.clone())).collect();
+                let body = vec![chain::coinbase_tx(height, self.coinbase_nonce, outs)];
+                let d = self.difficulty(*diff);
+                let prev = self.model.blocks[p].block.block_hash();
+                let time = self.model.blocks[p].block.header.time + 60;
+                let block = chain::build_block(self.cfg.net, prev, time, body, self.cfg.validated);
+                if let Err(e) = self.push_to_sut(&block, d) {
+                    info.errors.push(e);
+                    return info;
+                }
+                let id = self.model.add_block(p, block, d);
+                info.new_block = Some(id);
+                self.settle(&mut info, on_pause);
+            }
             Op::SetThreshold(t) => {
                 sut::set_threshold(*t as u32);
                 self.model.threshold = *t as u32;
@@ -667,6 +704,7 @@ pub fn op_brief(op: &Op) -> String {
         ),
         Op::SetThreshold(t) => format!("SetThreshold({})", t),
         Op::Upgrade => "Upgrade".into(),
+        Op::BigFund { script, n, diff } => format!("BigFund(script={}, outputs={}, diff_byte={})", script, n, diff),
     }
 }
 
@@ -679,4 +717,71 @@ pub fn history_brief(h: &History) -> serde_json::Value {
         "pool": h.cfg.pool.iter().map(|s| format!("{:?}", s)).collect::<Vec<_>>(),
         "ops": h.ops.iter().map(op_brief).collect::<Vec<_>>(),
     })
+}
+
+// ---------------------------------------------------------------------------------------------
+// Exhaustive small fork trees
+// ---------------------------------------------------------------------------------------------
+
+/// Selector value that makes `pick(sel, len)` return `k`.
+pub fn sel_for(k: usize, len: usize) -> u16 {
+    (((k as u32) * 65536).div_ceil(len as u32)).min(65535) as u16
+}
+
+/// Every (rooted tree with n non-genesis nodes, arrival order) pair -- encoded as a parent
+/// vector with parent[i] in 0..=i -- times every difficulty vector over {1,2,3}, as histories
+/// on the given network with a threshold that is never reached (nothing stabilises, so the
+/// whole tree stays unstable) or a small one.
+pub fn exhaustive_trees(n: usize, net: Net, threshold: u8) -> Vec<History> {
+    let mut out = vec![];
+    let mut parents = vec![0usize; n];
+    loop {
+        let mut diffs = vec![0u8; n];
+        loop {
+            let ops: Vec<Op> = (0..n)
+                .map(|i| Op::Extend {
+                    // live blocks are ids 0..=i in creation order when nothing stabilises; with a
+                    // small threshold the candidate list shrinks and the selector simply maps
+                    // onto what is left (still a valid history)
+                    parent: ParentSel::Any(sel_for(parents[i], i + 1)),
+                    coinbase: vec![(0, 1)],
+                    txs: vec![],
+                    diff: diffs[i],
+                    dt: 1,
+                    reuse: None,
+                })
+                .collect();
+            out.push(History {
+                cfg: Cfg { net, threshold, pool: vec![ScriptSpec::P2pkh(0)], diff_mode: DiffMode::Random, validated: false },
+                ops,
+            });
+            // next difficulty vector
+            let mut k = 0;
+            while k < n {
+                diffs[k] += 1;
+                if diffs[k] < 3 {
+                    break;
+                }
+                diffs[k] = 0;
+                k += 1;
+            }
+            if k == n {
+                break;
+            }
+        }
+        // next parent vector
+        let mut k = 0;
+        while k < n {
+            parents[k] += 1;
+            if parents[k] <= k {
+                break;
+            }
+            parents[k] = 0;
+            k += 1;
+        }
+        if k == n {
+            break;
+        }
+    }
+    out
 }
